@@ -3,6 +3,8 @@
 -/
 import Yabgp.Driver.Json
 import Yabgp.Driver.Spec
+import Yabgp.Driver.RibOps
+import Yabgp.Driver.MsgLogOps
 
 namespace Yabgp.Glue
 open Lean (Json)
@@ -10,9 +12,17 @@ open Lean (Json)
 /-- driver state (the session model lives here later) -/
 structure DState where
   sess : Option World := none
+  rib : Yabgp.RibGlue.RibDState := {}
+  msglog : MsgLogOps.MsgLogState := {}
 
 def dispatch (st : DState) (j : Json) : Except String (DState × Json) := do
   let op ← getStr j "op"
+  if Yabgp.RibGlue.isRibOp op then
+    let (r, out) ← Yabgp.RibGlue.dispatchRib st.rib j
+    return ({ st with rib := r }, out)
+  if op.startsWith "msglog." || op == "spec.logaudit" then
+    let (ml, r) ← MsgLogOps.dispatchMsgLog st.msglog j
+    return ({ st with msglog := ml }, r)
   match op with
   | "ping" => pure (st, obj [("pong", Json.bool true)])
   | "upd.parse" => do
